@@ -455,7 +455,7 @@ func c19Fidelity(c *core.Ctx, r *rng.R) *core.Result {
 			for _, r := range p.Runs {
 				sb.WriteString(r.Text.Content)
 			}
-			codeParas = append(codeParas, strings.TrimRight(sb.String(), "\n"))
+			codeParas = append(codeParas, sb.String())
 		}
 	}
 	var wantCode []string
